@@ -617,5 +617,765 @@ theorem C19_separator_width_partial (env : Env) (widths : WMap) (t : Table) (w2 
   rw [hsep, List.length_replicate, hb, h0]
   exact ⟨rfl, by omega⟩
 
+/-! ### clipping to the terminal height -/
+
+/-- number of newlines = number of printed lines -/
+def nlCount : Str → Nat
+  | [] => 0
+  | c :: cs => (if c = '\n' then 1 else 0) + nlCount cs
+
+theorem nlCount_append (a b : Str) : nlCount (a ++ b) = nlCount a + nlCount b := by
+  induction a with
+  | nil => simp [nlCount]
+  | cons c cs ih => simp [nlCount, ih]; omega
+
+theorem nlCount_zero_of_not_mem : ∀ l : Str, '\n' ∉ l → nlCount l = 0 := by
+  intro l
+  induction l with
+  | nil => intro _; rfl
+  | cons c cs ih =>
+    intro h
+    simp only [List.mem_cons, not_or] at h
+    have hc : c ≠ '\n' := fun e => h.1 e.symm
+    simp [nlCount, hc, ih h.2]
+
+theorem nlCount_unlines : ∀ ls : List Str, (∀ l ∈ ls, '\n' ∉ l) → nlCount (unlines ls) = ls.length := by
+  intro ls
+  induction ls with
+  | nil => intro _; rfl
+  | cons l ls ih =>
+    intro h
+    simp only [unlines, nlCount_append, nlCount, List.length_cons]
+    rw [nlCount_zero_of_not_mem l (h l (by simp)), ih (fun x hx => h x (by simp [hx]))]
+    simp
+    omega
+
+theorem splitNl_ne_nil (s : Str) : splitNl s ≠ [] := by
+  cases s with
+  | nil => simp [splitNl]
+  | cons c cs =>
+    simp only [splitNl]
+    split
+    · simp
+    · split <;> simp
+
+theorem splitNl_no_nl : ∀ (s : Str), ∀ l ∈ splitNl s, '\n' ∉ l := by
+  intro s
+  induction s with
+  | nil => intro l hl; simp [splitNl] at hl; subst hl; simp
+  | cons c cs ih =>
+    intro l hl
+    simp only [splitNl] at hl
+    split at hl
+    · simp only [List.mem_cons] at hl
+      rcases hl with rfl | hl
+      · simp
+      · exact ih l hl
+    · rename_i hc
+      split at hl
+      · simp at hl; subst hl; simp; exact fun e => hc e.symm
+      · rename_i x xs hx
+        simp only [List.mem_cons] at hl
+        rcases hl with rfl | hl
+        · have := ih x (by rw [hx]; simp)
+          simp only [List.mem_cons, not_or]
+          exact ⟨fun e => hc e.symm, this⟩
+        · exact ih l (by rw [hx]; simp [hl])
+
+theorem stripCr_no_nl (l : Str) (h : '\n' ∉ l) : '\n' ∉ stripCr l := by
+  unfold stripCr
+  split
+  · exact fun hm => h ((List.dropLast_sublist _).subset hm)
+  · exact h
+
+theorem rustLines_no_nl (s : Str) : ∀ l ∈ rustLines s, '\n' ∉ l := by
+  intro l hl
+  simp only [rustLines, List.mem_append, List.mem_map] at hl
+  rcases hl with ⟨x, hx, rfl⟩ | hl
+  · exact stripCr_no_nl x (splitNl_no_nl s x ((List.dropLast_sublist _).subset hx))
+  · split at hl
+    · simp at hl
+    · simp only [List.mem_singleton] at hl
+      subst hl
+      cases hg : (splitNl s).getLast? with
+      | none => simp
+      | some x =>
+        simp only [Option.getD_some]
+        exact splitNl_no_nl s x (List.mem_of_getLast? hg)
+
+/-- **C19_clip.**  On a terminal of height `h` the printed table has at most `h − 1` lines
+(a single empty line for `h = 1`). -/
+theorem C19_clip (env : Env) (w h : Nat) (s out : Str) (hterm : env.term = some (w, h))
+    (hc : clip env s = .ok out) : nlCount out ≤ max (h - 1) 1 := by
+  simp only [clip, hterm] at hc
+  split at hc
+  · simp at hc
+  · split at hc
+    · simp only [Outcome.ok.injEq] at hc
+      subst hc
+      simp [nlCount]
+      omega
+    · rename_i ls hls
+      simp only [Outcome.ok.injEq] at hc
+      subst hc
+      rw [nlCount_unlines]
+      · have := List.length_take_le (h - 1) (rustLines s)
+        omega
+      · intro l hl
+        exact rustLines_no_nl s l (List.mem_of_mem_take hl)
+
+/-- a line that survives `lines()` unchanged -/
+def Clean (l : Str) : Prop := '\n' ∉ l ∧ l.getLast? ≠ some '\r'
+
+theorem splitNl_line (l rest : Str) (h : '\n' ∉ l) : splitNl (l ++ '\n' :: rest) = l :: splitNl rest := by
+  induction l with
+  | nil => simp [splitNl]
+  | cons c cs ih =>
+    simp only [List.mem_cons, not_or] at h
+    have hc : c ≠ '\n' := fun e => h.1 e.symm
+    simp only [List.cons_append, splitNl, hc, ↓reduceIte, ih h.2]
+
+theorem splitNl_unlines : ∀ ls : List Str, (∀ l ∈ ls, '\n' ∉ l) → splitNl (unlines ls) = ls ++ [[]] := by
+  intro ls
+  induction ls with
+  | nil => intro _; rfl
+  | cons l ls ih =>
+    intro h
+    simp only [unlines]
+    rw [splitNl_line l _ (h l (by simp)), ih (fun x hx => h x (by simp [hx]))]
+    rfl
+
+theorem rustLines_unlines (ls : List Str) (h : ∀ l ∈ ls, Clean l) : rustLines (unlines ls) = ls := by
+  simp only [rustLines]
+  rw [splitNl_unlines ls (fun l hl => (h l hl).1)]
+  simp only [List.dropLast_concat, List.getLast?_append, List.getLast?_singleton, Option.some_or,
+    Option.getD_some, List.isEmpty_nil, ↓reduceIte, List.append_nil]
+  have : ∀ l ∈ ls, stripCr l = l := by
+    intro l hl
+    simp [stripCr, (h l hl).2]
+  rw [List.map_congr_left this]
+  simp
+
+/-- **C19_lines.**  When no header, separator or body text contains a newline or ends in a
+carriage return, the printed table is: header line, separator line, one line per row — cut after
+`height − 1` lines on a terminal. -/
+theorem C19_lines (env : Env) (st : St) (t : Table) (w2 : WMap) (parts : Parts)
+    (hrows : t.rows ≠ []) (hp : tableParts env st.widths t = .ok (w2, parts))
+    (hclean : ∀ l ∈ parts.header :: parts.sep :: parts.body, Clean l) :
+    match env.term with
+    | none => formatAggregate env st t = .ok (unlines (parts.header :: parts.sep :: parts.body), { st with widths := w2 })
+    | some (_, h) => 2 ≤ h →
+      formatAggregate env st t =
+        .ok (unlines ((parts.header :: parts.sep :: parts.body).take (h - 1)), { st with widths := w2 }) := by
+  have hne : t.rows.isEmpty = false := by cases hr : t.rows <;> simp_all
+  cases hterm : env.term with
+  | none => simp [formatAggregate, hne, hp, clip, hterm, Parts.text]
+  | some wh =>
+    obtain ⟨w, h⟩ := wh
+    intro h2
+    simp only [formatAggregate, hne, Bool.false_eq_true, ↓reduceIte, hp, clip, hterm, Parts.text]
+    rw [rustLines_unlines _ hclean]
+    have hlt : ¬ h < 1 := by omega
+    simp only [hlt, ↓reduceIte]
+    have hk : h - 1 = (h - 2) + 1 := by omega
+    rw [hk]
+    simp [List.take]
+
+/-! ### no panic -/
+
+def AllGe2 (w : WMap) (cols : List String) : Prop := ∀ c ∈ cols, ∃ n, w.get c = some n ∧ 2 ≤ n
+
+def ValuesGe2 (w : WMap) : Prop := ∀ c n, w.get c = some n → 2 ≤ n
+
+theorem get_put_self (k : String) (v : Nat) : ∀ m : WMap, (WMap.put k v m).get k = some v := by
+  intro m
+  induction m with
+  | nil => simp [WMap.put, WMap.get]
+  | cons kv t ih =>
+    obtain ⟨k', v'⟩ := kv
+    by_cases h : k = k'
+    · simp [WMap.put, WMap.get, h]
+    · simp [WMap.put, WMap.get, h, ih]
+
+theorem get_put_ne (k c : String) (v : Nat) (h : c ≠ k) : ∀ m : WMap, (WMap.put k v m).get c = m.get c := by
+  intro m
+  induction m with
+  | nil => simp [WMap.put, WMap.get, h]
+  | cons kv t ih =>
+    obtain ⟨k', v'⟩ := kv
+    by_cases hk : k = k'
+    · subst hk; simp [WMap.put, WMap.get, h]
+    · by_cases hc : c = k'
+      · simp [WMap.put, WMap.get, hk, hc]
+      · simp [WMap.put, WMap.get, hk, hc, ih]
+
+theorem total_put_le (k : String) (v : Nat) : ∀ m : WMap, (WMap.put k v m).total ≤ m.total + v := by
+  intro m
+  induction m with
+  | nil => simp [WMap.put, WMap.total]
+  | cons kv t ih =>
+    obtain ⟨k', v'⟩ := kv
+    by_cases hk : k = k'
+    · simp [WMap.put, WMap.total, hk]; omega
+    · simp only [WMap.put, hk, ↓reduceIte, WMap.total]; omega
+
+theorem get_some_mem : ∀ (w : WMap) (c : String) (n : Nat), w.get c = some n → c ∈ w.map Prod.fst := by
+  intro w
+  induction w with
+  | nil => intro c n h; simp [WMap.get] at h
+  | cons kv t ih =>
+    intro c n h
+    obtain ⟨k, v⟩ := kv
+    by_cases hc : c = k
+    · simp [hc]
+    · simp only [WMap.get, hc, ↓reduceIte] at h
+      simp [ih c n h]
+
+/-- `extend`: a key of `new` gets one of `new`'s values, any other key keeps its value -/
+theorem get_extend : ∀ (new m : WMap) (c : String),
+    (c ∈ new.map Prod.fst → ∃ n, (c, n) ∈ new ∧ (WMap.extend m new).get c = some n) ∧
+    (c ∉ new.map Prod.fst → (WMap.extend m new).get c = m.get c) := by
+  intro new
+  induction new with
+  | nil => intro m c; simp [WMap.extend]
+  | cons kv rest ih =>
+    intro m c
+    obtain ⟨k, v⟩ := kv
+    simp only [WMap.extend, List.map_cons, List.mem_cons]
+    obtain ⟨ih1, ih2⟩ := ih (WMap.put k v m) c
+    constructor
+    · intro hmem
+      by_cases hr : c ∈ rest.map Prod.fst
+      · obtain ⟨n, hn, hg⟩ := ih1 hr
+        exact ⟨n, Or.inr hn, hg⟩
+      · have hck : c = k := by
+          rcases hmem with h | h
+          · exact h
+          · exact absurd h hr
+        subst hck
+        exact ⟨v, Or.inl rfl, by rw [ih2 hr, get_put_self]⟩
+    · intro hn
+      simp only [not_or] at hn
+      rw [ih2 hn.2, get_put_ne k c v hn.1]
+
+theorem computeWidths_keys (cfg : Cfg) (w : WMap) : ∀ row : Fields,
+    (computeWidths cfg w row).map Prod.fst = Fields.keys row := by
+  intro row
+  induction row with
+  | nil => rfl
+  | cons kv rest ih => obtain ⟨k, v⟩ := kv; simp [computeWidths, Fields.keys] at ih ⊢; exact ih
+
+theorem newWidth_ge2 (cfg : Cfg) (hb : BufOK cfg) (w : WMap) (k : String) (v : Value) :
+    2 ≤ newWidth cfg w k v := by
+  obtain ⟨h1, h2⟩ := hb
+  simp only [newWidth]
+  split <;> omega
+
+theorem computeWidths_ge2 (cfg : Cfg) (hb : BufOK cfg) (w : WMap) : ∀ (row : Fields) (c : String) (n : Nat),
+    (c, n) ∈ computeWidths cfg w row → 2 ≤ n := by
+  intro row
+  induction row with
+  | nil => intro c n h; simp [computeWidths] at h
+  | cons kv rest ih =>
+    intro c n h
+    obtain ⟨k, v⟩ := kv
+    simp only [computeWidths, List.mem_cons, Prod.mk.injEq] at h
+    rcases h with ⟨_, rfl⟩ | h
+    · exact newWidth_ge2 cfg hb w k v
+    · exact ih c n h
+
+/-- after the rows have been absorbed every column that occurs in a row is at least 2 wide -/
+theorem absorb_ge2 (cfg : Cfg) (hb : BufOK cfg) (c : String) : ∀ (rows : List Fields) (w : WMap),
+    ((∃ row ∈ rows, c ∈ Fields.keys row) ∨ ∃ n, w.get c = some n ∧ 2 ≤ n) →
+    ∃ n, (absorbRows cfg w rows).get c = some n ∧ 2 ≤ n := by
+  intro rows
+  induction rows with
+  | nil =>
+    intro w h
+    rcases h with ⟨row, hr, _⟩ | h
+    · simp at hr
+    · exact h
+  | cons row rows ih =>
+    intro w h
+    simp only [absorbRows]
+    apply ih
+    obtain ⟨g1, g2⟩ := get_extend (computeWidths cfg w row) w c
+    rw [computeWidths_keys] at g1 g2
+    by_cases hin : c ∈ Fields.keys row
+    · obtain ⟨n, hn, hg⟩ := g1 hin
+      exact Or.inr ⟨n, hg, computeWidths_ge2 cfg hb w row c n hn⟩
+    · rcases h with ⟨r, hr, hc⟩ | ⟨n, hn, h2⟩
+      · simp only [List.mem_cons] at hr
+        rcases hr with rfl | hr
+        · exact absurd hc hin
+        · exact Or.inl ⟨r, hr, hc⟩
+      · exact Or.inr ⟨n, by rw [g2 hin]; exact hn, h2⟩
+
+theorem share_arith (rem d : Nat) (hd : 1 ≤ d) (h : 2 * d ≤ rem) :
+    2 ≤ rem / d ∧ rem / d ≤ rem ∧ 2 * (d - 1) ≤ rem - rem / d := by
+  have hq : 2 ≤ rem / d := (Nat.le_div_iff_mul_le (by omega)).mpr h
+  refine ⟨hq, Nat.div_le_self rem d, ?_⟩
+  obtain ⟨d', rfl⟩ : ∃ d', d = d' + 1 := ⟨d - 1, by omega⟩
+  have h1 : rem / (d' + 1) * (d' + 1) ≤ rem := Nat.div_mul_le_self rem (d' + 1)
+  have h2 : rem / (d' + 1) * (d' + 1) = rem / (d' + 1) * d' + rem / (d' + 1) := Nat.mul_succ _ _
+  have h3 : 2 * d' ≤ rem / (d' + 1) * d' := Nat.mul_le_mul_right d' hq
+  generalize rem / (d' + 1) * d' = z at *
+  generalize rem / (d' + 1) = q at *
+  simp only [Nat.add_sub_cancel]
+  omega
+
+/-- the allocation loop of `resize_widths_to_fit` succeeds and keeps every column at least 2 wide
+as long as two cells per remaining map entry are left -/
+theorem resizeGo_ok (len : Nat) (cw : WMap) : ∀ (cols : List String) (i rem : Nat) (acc : WMap),
+    AllGe2 cw cols → i + cols.length ≤ len → 2 * (len - i) ≤ rem → ValuesGe2 acc →
+    ∃ w2, resizeGo len cw cols i rem acc = .ok w2 ∧ ValuesGe2 w2 ∧
+      (∀ c, (c ∈ cols ∨ (acc.get c).isSome) → (w2.get c).isSome) ∧ w2.total ≤ acc.total + rem := by
+  intro cols
+  induction cols with
+  | nil =>
+    intro i rem acc _ _ _ hacc
+    refine ⟨acc, rfl, hacc, ?_, by omega⟩
+    intro c hc
+    simpa using hc
+  | cons col rest ih =>
+    intro i rem acc hall hlen hrem hacc
+    obtain ⟨width, hget, hw2⟩ := hall col (by simp)
+    simp only [List.length_cons] at hlen
+    have hd : 1 ≤ len - i := by omega
+    obtain ⟨hs2, hsle, hsrem⟩ := share_arith rem (len - i) hd hrem
+    have hshare : share rem (len - i) = rem / (len - i) := by
+      simp [share]; omega
+    have hnlt : ¬ len < i := by omega
+    simp only [resizeGo, hget, hnlt, ↓reduceIte, hshare]
+    by_cases hlt : width < rem / (len - i)
+    · have h1 : ¬ rem < width := by omega
+      simp only [hlt, ↓reduceIte, h1]
+      obtain ⟨w2, hr, hv, hk, ht⟩ := ih (i + 1) (rem - width) (acc.put col width)
+        (fun c hc => hall c (by simp [hc])) (by omega) (by omega)
+        (by
+          intro c n hn
+          by_cases hc : c = col
+          · subst hc; rw [get_put_self] at hn; cases hn; exact hw2
+          · rw [get_put_ne col c width hc] at hn; exact hacc c n hn)
+      refine ⟨w2, hr, hv, ?_, ?_⟩
+      · intro c hc
+        apply hk
+        by_cases hcc : c = col
+        · subst hcc; right; simp [get_put_self]
+        · rcases hc with hc | hc
+          · simp only [List.mem_cons] at hc
+            rcases hc with hc | hc
+            · exact absurd hc hcc
+            · exact Or.inl hc
+          · right; rw [get_put_ne col c width hcc]; exact hc
+      · have := total_put_le col width acc
+        omega
+    · have h1 : ¬ rem < rem / (len - i) := by omega
+      simp only [hlt, ↓reduceIte, h1]
+      obtain ⟨w2, hr, hv, hk, ht⟩ := ih (i + 1) (rem - rem / (len - i)) (acc.put col (rem / (len - i)))
+        (fun c hc => hall c (by simp [hc])) (by omega) (by omega)
+        (by
+          intro c n hn
+          by_cases hc : c = col
+          · subst hc; rw [get_put_self] at hn; cases hn; exact hs2
+          · rw [get_put_ne col c _ hc] at hn; exact hacc c n hn)
+      refine ⟨w2, hr, hv, ?_, ?_⟩
+      · intro c hc
+        apply hk
+        by_cases hcc : c = col
+        · subst hcc; right; simp [get_put_self]
+        · rcases hc with hc | hc
+          · simp only [List.mem_cons] at hc
+            rcases hc with hc | hc
+            · exact absurd hc hcc
+            · exact Or.inl hc
+          · right; rw [get_put_ne col c _ hcc]; exact hc
+      · have := total_put_le col (rem / (len - i)) acc
+        omega
+
+theorem headerCells_ok (w : WMap) : ∀ cols : List String, (∀ c ∈ cols, (w.get c).isSome) →
+    ∃ hs, headerCells w cols = .ok hs := by
+  intro cols
+  induction cols with
+  | nil => intro _; exact ⟨[], rfl⟩
+  | cons c cs ih =>
+    intro h
+    obtain ⟨n, hn⟩ := Option.isSome_iff_exists.mp (h c (by simp))
+    obtain ⟨hs, hhs⟩ := ih (fun d hd => h d (by simp [hd]))
+    exact ⟨padTo n c.toList :: hs, by simp [headerCells, hn, hhs]⟩
+
+theorem rowCells_ok (w : WMap) (row : Fields) : ∀ cols : List String, AllGe2 w cols →
+    ∃ cells, rowCells w row cols = .ok cells := by
+  intro cols
+  induction cols with
+  | nil => intro _; exact ⟨[], rfl⟩
+  | cons c cs ih =>
+    intro h
+    obtain ⟨n, hn, h2⟩ := h c (by simp)
+    obtain ⟨cell, hcell⟩ := fmtEllipsis_ok (cellText ((Fields.get c row).getD .none)) n h2
+    obtain ⟨cells, hcells⟩ := ih (fun d hd => h d (by simp [hd]))
+    exact ⟨cell :: cells, by simp [rowCells, hn, hcell, hcells]⟩
+
+theorem bodyLines_ok (w : WMap) (cols : List String) (h : AllGe2 w cols) : ∀ rows : List Fields,
+    ∃ body, bodyLines w cols rows = .ok body := by
+  intro rows
+  induction rows with
+  | nil => exact ⟨[], rfl⟩
+  | cons r rs ih =>
+    obtain ⟨cells, hc⟩ := rowCells_ok w r cols h
+    obtain ⟨body, hb⟩ := ih
+    exact ⟨Text.trim (concat cells) :: body, by simp [bodyLines, rowLine, hc, hb]⟩
+
+theorem clip_ok (env : Env) (hh : HeightOK env) (s : Str) : ∃ out, clip env s = .ok out := by
+  cases hterm : env.term with
+  | none => exact ⟨s, by simp [clip, hterm]⟩
+  | some wh =>
+    obtain ⟨w, h⟩ := wh
+    have := hh w h hterm
+    have hlt : ¬ h < 1 := by omega
+    simp only [clip, hterm, hlt, ↓reduceIte]
+    split
+    · exact ⟨_, rfl⟩
+    · exact ⟨_, rfl⟩
+
+/-- **C19_no_panic.**  `format_aggregate` does not panic — whatever widths earlier frames left in
+the printer — provided the buffers are the production ones (`BufOK`), the terminal has a height,
+column names are distinct and occur in the rows, and EITHER the natural widths fit the terminal OR
+the terminal has at least two cells per remembered column. -/
+theorem C19_no_panic (env : Env) (st : St) (t : Table)
+    (hbuf : BufOK env.cfg) (hh : HeightOK env) (hnd : t.columns.Nodup) (hcov : Covered t)
+    (hw : fits env (absorbRows env.cfg st.widths t.rows) = true ∨
+          2 * (absorbRows env.cfg st.widths t.rows).length ≤ env.maxWidth) :
+    ∃ out st', formatAggregate env st t = .ok (out, st') := by
+  by_cases hrows : t.rows = []
+  · exact ⟨_, _, C19_empty env st t hrows⟩
+  have hne : t.rows.isEmpty = false := by cases hr : t.rows <;> simp_all
+  -- every column is at least 2 wide after the rows have been absorbed
+  have hall1 : AllGe2 (absorbRows env.cfg st.widths t.rows) t.columns := by
+    intro c hc
+    exact absorb_ge2 env.cfg hbuf c t.rows st.widths (Or.inl (hcov c hc))
+  -- resize succeeds, keeps that, and fits
+  have hres : ∃ w2, resize env (absorbRows env.cfg st.widths t.rows) t.columns = .ok w2 ∧
+      AllGe2 w2 t.columns ∧ fits env w2 = true := by
+    by_cases hf : fits env (absorbRows env.cfg st.widths t.rows) = true
+    · exact ⟨_, by simp [resize, hf], hall1, hf⟩
+    · have hw' := hw.resolve_left hf
+      have hsub : t.columns ⊆ (absorbRows env.cfg st.widths t.rows).map Prod.fst := by
+        intro c hc
+        obtain ⟨n, hn, _⟩ := hall1 c hc
+        exact get_some_mem _ c n hn
+      have hlen := hnd.length_le_of_subset hsub
+      simp only [List.length_map] at hlen
+      obtain ⟨w2, hr, hv, hk, ht⟩ := resizeGo_ok (absorbRows env.cfg st.widths t.rows).length
+        (absorbRows env.cfg st.widths t.rows) t.columns 0 env.maxWidth [] hall1 (by omega) (by omega)
+        (by intro c n h; simp [WMap.get] at h)
+      refine ⟨w2, by simp [resize, hf, hr], ?_, ?_⟩
+      · intro c hc
+        obtain ⟨n, hn⟩ := Option.isSome_iff_exists.mp (hk c (Or.inl hc))
+        exact ⟨n, hn, hv c n hn⟩
+      · simp only [WMap.total] at ht
+        simp [fits]; omega
+  obtain ⟨w2, hr, hall2, hfits⟩ := hres
+  obtain ⟨hs, hhs⟩ := headerCells_ok w2 t.columns (fun c hc => by
+    obtain ⟨n, hn, _⟩ := hall2 c hc; simp [hn])
+  obtain ⟨body, hb⟩ := bodyLines_ok w2 t.columns hall2 t.rows
+  obtain ⟨out, hout⟩ := clip_ok env hh
+    (Parts.text { header := Text.trim (concat hs), sep := List.replicate (byteLen (concat hs)) '-', body := body })
+  exact ⟨out, { st with widths := w2 }, by simp [formatAggregate, hne, tableParts, hr, hfits, hhs, hb, hout]⟩
+
+/-! #### a fresh printer: `2 · #columns ≤ width` -/
+
+theorem keys_put (k : String) (v : Nat) : ∀ m : WMap,
+    (WMap.put k v m).map Prod.fst = if k ∈ m.map Prod.fst then m.map Prod.fst else m.map Prod.fst ++ [k] := by
+  intro m
+  induction m with
+  | nil => simp [WMap.put]
+  | cons kv t ih =>
+    obtain ⟨k', v'⟩ := kv
+    by_cases hk : k = k'
+    · simp [WMap.put, hk]
+    · simp only [WMap.put, hk, ↓reduceIte, List.map_cons, ih, List.mem_cons, false_or]
+      split <;> simp
+
+def KeysIn (S : List String) (w : WMap) : Prop := (w.map Prod.fst).Nodup ∧ ∀ k ∈ w.map Prod.fst, k ∈ S
+
+theorem keysIn_put (S : List String) (k : String) (v : Nat) (m : WMap) (hk : k ∈ S) (h : KeysIn S m) :
+    KeysIn S (WMap.put k v m) := by
+  unfold KeysIn
+  rw [keys_put]
+  split
+  · exact h
+  · rename_i hn
+    refine ⟨?_, ?_⟩
+    · rw [List.nodup_append]
+      refine ⟨h.1, by simp, ?_⟩
+      intro a ha b hb
+      simp only [List.mem_singleton] at hb
+      subst hb
+      exact fun e => hn (e ▸ ha)
+    · intro x hx
+      simp only [List.mem_append, List.mem_singleton] at hx
+      rcases hx with hx | rfl
+      · exact h.2 x hx
+      · exact hk
+
+theorem keysIn_extend (S : List String) : ∀ (new m : WMap), (∀ k ∈ new.map Prod.fst, k ∈ S) → KeysIn S m →
+    KeysIn S (WMap.extend m new) := by
+  intro new
+  induction new with
+  | nil => intro m _ h; exact h
+  | cons kv rest ih =>
+    intro m hn h
+    obtain ⟨k, v⟩ := kv
+    simp only [WMap.extend]
+    exact ih _ (fun x hx => hn x (by simp [hx])) (keysIn_put S k v m (hn k (by simp)) h)
+
+theorem keysIn_absorb (cfg : Cfg) (S : List String) : ∀ (rows : List Fields) (w : WMap),
+    (∀ row ∈ rows, ∀ k ∈ Fields.keys row, k ∈ S) → KeysIn S w → KeysIn S (absorbRows cfg w rows) := by
+  intro rows
+  induction rows with
+  | nil => intro w _ h; exact h
+  | cons row rows ih =>
+    intro w hr h
+    simp only [absorbRows]
+    apply ih _ (fun r hr' => hr r (by simp [hr']))
+    apply keysIn_extend S _ w _ h
+    rw [computeWidths_keys]
+    exact hr row (by simp)
+
+/-- **C19_no_panic_fresh.**  First frame of a query (no remembered widths), every row key a column:
+no panic on any terminal with at least two cells per column. -/
+theorem C19_no_panic_fresh (env : Env) (t : Table)
+    (hbuf : BufOK env.cfg) (hh : HeightOK env) (hnd : t.columns.Nodup) (hcov : Covered t)
+    (hkeys : ∀ row ∈ t.rows, ∀ k ∈ Fields.keys row, k ∈ t.columns)
+    (hw : 2 * t.columns.length ≤ env.maxWidth) :
+    ∃ out st', formatAggregate env {} t = .ok (out, st') := by
+  apply C19_no_panic env {} t hbuf hh hnd hcov
+  right
+  have hk := keysIn_absorb env.cfg t.columns t.rows [] hkeys ⟨by simp, by simp⟩
+  have := hk.1.length_le_of_subset hk.2
+  simp only [List.length_map] at this
+  show 2 * (absorbRows env.cfg [] t.rows).length ≤ env.maxWidth
+  omega
+
+/-- the statement without the width bound -/
+def C19_no_panic_full : Prop :=
+  ∀ (env : Env) (st : St) (t : Table), BufOK env.cfg → HeightOK env → t.columns.Nodup → Covered t →
+    ∃ out st', formatAggregate env st t = .ok (out, st')
+
+def isPanic {α : Type} : Outcome α → Bool
+  | .panic _ => true
+  | _ => false
+
+def envNarrow2 : Env := { cfg := { minBuf := 4, maxBuf := 8 }, term := some (2, 10) }
+def table3 : Table :=
+  { columns := ["a", "b", "c"], rows := [[("a", .int 1), ("b", .int 2), ("c", .int 3)]] }
+
+/-- three columns on a two-cell terminal: a share of 0 cells, and `limit - 2` underflows -/
+theorem C19_no_panic_counterexample : ¬ C19_no_panic_full := by
+  intro h
+  have hp : isPanic (formatAggregate envNarrow2 {} table3) = true := by decide
+  obtain ⟨out, st', hok⟩ := h envNarrow2 {} table3 (by decide)
+    (by intro w h hterm; simp [envNarrow2] at hterm; omega) (by decide)
+    (by
+      intro c hc
+      refine ⟨[("a", .int 1), ("b", .int 2), ("c", .int 3)], by simp [table3], ?_⟩
+      simpa [table3, Fields.keys] using hc)
+  rw [hok] at hp
+  simp [isPanic] at hp
+
+/-- non-vacuity of `C19_no_panic` in the resize branch: the unit test's long table at width 60 -/
+example : BufOK { minBuf := 4, maxBuf := 8 } ∧
+    fits { cfg := { minBuf := 4, maxBuf := 8 }, term := some (20, 10) }
+      (absorbRows { minBuf := 4, maxBuf := 8 } [] [[("k", .str "abcdefghijklmnopqrstuvwxyz"), ("n", .int 5)]]) = false ∧
+    2 * (absorbRows { minBuf := 4, maxBuf := 8 } [] [[("k", .str "abcdefghijklmnopqrstuvwxyz"), ("n", .int 5)]]).length ≤ 20 := by
+  decide
+
+/-! ### every line fits (summary of the partial width results) -/
+
+/-- **C19_width_partial.**  All lines of the table — header, separator, body — have at most `width`
+characters when column names are distinct, single-byte, and fit their columns.  (The body alone
+needs only distinct names: `C19_body_width`.  Without the two name hypotheses the statement is
+false: `C19_header_width_counterexample`, `C19_separator_width_counterexample`.) -/
+theorem C19_width_partial (env : Env) (widths : WMap) (t : Table) (w2 : WMap) (parts : Parts)
+    (hnd : t.columns.Nodup) (h : tableParts env widths t = .ok (w2, parts))
+    (hfit : ∀ c ∈ t.columns, ∀ n, w2.get c = some n → c.toList.length ≤ n)
+    (hascii : ∀ c ∈ t.columns, ∀ x ∈ c.toList, x.utf8Size = 1) :
+    ∀ l ∈ parts.header :: parts.sep :: parts.body, l.length ≤ env.maxWidth := by
+  intro l hl
+  simp only [List.mem_cons] at hl
+  rcases hl with rfl | rfl | hl
+  · exact C19_header_width_partial env widths t w2 parts hnd h hfit
+  · exact (C19_separator_width_partial env widths t w2 parts hnd h hfit hascii).2
+  · exact C19_body_width env widths t w2 parts hnd h l hl
+
+/-! ### records as columns -/
+
+theorem mem_insertKey (x k : String) : ∀ l : List String, x ∈ insertKey k l ↔ x = k ∨ x ∈ l := by
+  intro l
+  induction l with
+  | nil => simp [insertKey]
+  | cons y ys ih =>
+    simp only [insertKey]
+    split
+    · simp
+    · simp only [List.mem_cons, ih]
+      constructor
+      · rintro (h | h | h) <;> simp [h]
+      · rintro (h | h | h) <;> simp [h]
+
+theorem mem_sortKeys (x : String) : ∀ l : List String, x ∈ sortKeys l ↔ x ∈ l := by
+  intro l
+  induction l with
+  | nil => simp [sortKeys]
+  | cons y ys ih => simp [sortKeys, mem_insertKey, ih]
+
+theorem mem_newColumns (order : List String) (data : Fields) (k : String) :
+    k ∈ newColumns order data ↔ k ∈ Fields.keys data ∧ k ∉ order := by
+  simp [newColumns, mem_sortKeys, List.mem_filter]
+
+/-- what the state and the text are after a successful `format_record_as_columns` -/
+theorem formatRecord_inv (env : Env) (st : St) (r : Record) (out : Str) (st' : St)
+    (h : formatRecord env st r = .ok (out, st')) :
+    let w1 := st.widths.extend (computeWidths env.cfg st.widths r.data)
+    let o1 := st.order ++ newColumns st.order r.data
+    (o1 = [] ∧ st'.order = [] ∧ out = Text.trimEnd r.raw.toList) ∨
+    (overflows env w1 = false ∧ st'.order = o1 ∧
+      ∃ cells, recordCells false w1 r.data o1 = .ok cells ∧ out = Text.trim (concat cells)) ∨
+    (overflows env w1 = true ∧ st'.order = newColumns [] r.data ∧
+      ∃ noPad cells, recordCells noPad st'.widths r.data st'.order = .ok cells ∧ out = Text.trim (concat cells)) := by
+  intro w1 o1
+  simp only [formatRecord] at h
+  by_cases he : (st.order ++ newColumns st.order r.data).isEmpty = true
+  · left
+    simp only [he, ↓reduceIte, Outcome.ok.injEq, Prod.mk.injEq] at h
+    obtain ⟨rfl, rfl⟩ := h
+    have : o1 = [] := by simpa [o1] using he
+    exact ⟨this, by simpa [o1] using this, rfl⟩
+  · right
+    simp only [he, Bool.false_eq_true, ↓reduceIte] at h
+    by_cases hov : overflows env w1 = true
+    · right
+      simp only [w1] at hov
+      simp only [hov, ↓reduceIte] at h
+      split at h
+      · rename_i cells hc
+        simp only [Outcome.ok.injEq, Prod.mk.injEq] at h
+        obtain ⟨rfl, rfl⟩ := h
+        exact ⟨hov, rfl, _, cells, hc, rfl⟩
+      all_goals simp at h
+    · left
+      have hov' : overflows env w1 = false := by simpa using hov
+      simp only [w1] at hov'
+      simp only [hov', Bool.false_eq_true, ↓reduceIte] at h
+      split at h
+      · rename_i cells hc
+        simp only [Outcome.ok.injEq, Prod.mk.injEq] at h
+        obtain ⟨rfl, rfl⟩ := h
+        exact ⟨hov', rfl, cells, hc, rfl⟩
+      all_goals simp at h
+
+/-- **C19_record_fields** (columns): after a record has been printed every one of its fields has a
+column -/
+theorem C19_record_fields (env : Env) (st : St) (r : Record) (out : Str) (st' : St)
+    (h : formatRecord env st r = .ok (out, st')) : ∀ k ∈ Fields.keys r.data, k ∈ st'.order := by
+  intro k hk
+  rcases formatRecord_inv env st r out st' h with ⟨ho, _, _⟩ | ⟨_, ho, _⟩ | ⟨_, ho, _⟩
+  · -- no column at all: then the record has no field
+    have : k ∈ st.order ++ newColumns st.order r.data := by
+      by_cases hin : k ∈ st.order
+      · simp [hin]
+      · simp [mem_newColumns, hk, hin]
+    rw [ho] at this
+    simp at this
+  · rw [ho]
+    by_cases hin : k ∈ st.order
+    · simp [hin]
+    · simp [mem_newColumns, hk, hin]
+  · rw [ho]
+    simp [mem_newColumns, hk]
+
+/-- **C19_record_order_stable**: the column order only ever grows at the end — unless the layout
+overflowed the terminal, in which case it is rebuilt from this record alone -/
+theorem C19_record_order_stable (env : Env) (st : St) (r : Record) (out : Str) (st' : St)
+    (h : formatRecord env st r = .ok (out, st'))
+    (hno : overflows env (st.widths.extend (computeWidths env.cfg st.widths r.data)) = false) :
+    ∃ added, st'.order = st.order ++ added := by
+  rcases formatRecord_inv env st r out st' h with ⟨ho, ho', _⟩ | ⟨_, ho, _⟩ | ⟨hov, _, _⟩
+  · refine ⟨[], ?_⟩
+    have := List.append_eq_nil_iff.mp ho
+    simp [ho', this.1]
+  · exact ⟨_, ho⟩
+  · rw [hno] at hov; cases hov
+
+/-- without a terminal the layout never overflows: the order is stable for the whole run -/
+theorem overflows_no_terminal (env : Env) (w : WMap) (h : env.term = none) : overflows env w = false := by
+  simp [overflows, h]
+
+/-- the cells of a record line: for every column, `[name=value]` (then padding) when the record
+has the field, nothing (then padding) when it has not -/
+theorem recordCells_spec (noPad : Bool) (w : WMap) (data : Fields) : ∀ (cols : List String) (cells : List Str),
+    recordCells noPad w data cols = .ok cells →
+    AllPairs (fun c cell => ∃ pad, cell = recordCell data c ++ pad ∧ ∀ x ∈ pad, x = ' ') cols cells := by
+  intro cols
+  induction cols with
+  | nil => intro cells h; simp [recordCells] at h; subst h; exact .nil
+  | cons c cs ih =>
+    intro cells h
+    simp only [recordCells] at h
+    by_cases hp : noPad = true
+    · simp only [hp, ↓reduceIte] at h
+      cases hr : recordCells noPad w data cs with
+      | ok rest =>
+        rw [hp] at hr
+        rw [hr] at h
+        simp only [Outcome.ok.injEq] at h
+        subst h
+        exact .cons ⟨[], by simp, by simp⟩ (ih rest (by rw [hp]; exact hr))
+      | err k => rw [hp] at hr; rw [hr] at h; simp at h
+      | panic p => rw [hp] at hr; rw [hr] at h; simp at h
+      | unmodelled u => rw [hp] at hr; rw [hr] at h; simp at h
+    · have hp' : noPad = false := by simpa using hp
+      subst hp'
+      simp only [Bool.false_eq_true, ↓reduceIte] at h
+      cases hg : w.get c with
+      | none => rw [hg] at h; simp at h
+      | some n =>
+        rw [hg] at h
+        simp only [] at h
+        cases hr : recordCells false w data cs with
+        | ok rest =>
+          rw [hr] at h
+          simp only [Outcome.ok.injEq] at h
+          subst h
+          refine .cons ⟨List.replicate (byteLen c.toList + 3 + n - (recordCell data c).length) ' ', rfl, ?_⟩ (ih rest hr)
+          intro x hx
+          exact (List.mem_replicate.mp hx).2
+        | err k => rw [hr] at h; simp at h
+        | panic p => rw [hr] at h; simp at h
+        | unmodelled u => rw [hr] at h; simp at h
+
+/-- **C19_record_fields** (text): the printed line is the `trim()` of the cells in column order, and
+the cell of a field `k = v` of the record is `[k=v]` followed by blanks only -/
+theorem C19_record_cells (env : Env) (st : St) (r : Record) (out : Str) (st' : St)
+    (h : formatRecord env st r = .ok (out, st')) (hne : st'.order ≠ []) :
+    ∃ cells, out = Text.trim (concat cells) ∧
+      AllPairs (fun c cell => ∃ pad, cell = recordCell r.data c ++ pad ∧ ∀ x ∈ pad, x = ' ') st'.order cells ∧
+      ∀ k v, Fields.get k r.data = some v →
+        recordCell r.data k = '[' :: k.toList ++ '=' :: cellText v ++ [']'] := by
+  have hcell : ∀ k v, Fields.get k r.data = some v →
+      recordCell r.data k = '[' :: k.toList ++ '=' :: cellText v ++ [']'] := by
+    intro k v hk; simp [recordCell, hk]
+  rcases formatRecord_inv env st r out st' h with ⟨_, ho, _⟩ | ⟨_, ho, cells, hc, hout⟩ | ⟨_, _, np, cells, hc, hout⟩
+  · exact absurd ho hne
+  · exact ⟨cells, hout, by rw [ho]; exact recordCells_spec _ _ _ _ _ hc, hcell⟩
+  · exact ⟨cells, hout, recordCells_spec _ _ _ _ _ hc, hcell⟩
+
+/-- non-vacuity: the unit test `pretty_print_record` -/
+example : (formatRecord { cfg := { minBuf := 1, maxBuf := 4 }, term := none } {}
+    { data := [("k1", .int 5), ("k3", .str "str")], raw := "" }).toOption.map (fun p => (String.ofList p.1, p.2.order)) =
+    some ("[k1=5]     [k3=str]", ["k1", "k3"]) := by
+  decide
+
 end C19
 end Ag
